@@ -172,7 +172,15 @@ public:
                 C.arg(oct == pos[i], "M2M: position code does not decode to the child's true octant");
                 for(long j = 0; j < i; ++j) C.arg(&low[j].get() != &low[i].get(), "M2M: the same child handed twice");
                 srcs.push_back(ch.index);
-            } else if(cit != C.mpOf.end()){ srcs.push_back(cit->second.index); } else srcs.push_back(-1);
+            } else if(cit != C.mpOf.end()){
+                // periodic top tree, base step: real level-1 cells under the virtual box cell
+                const CellId ch = cit->second;
+                C.arg(ch.level == 1, "top-tree M2M: a real child that is not a level-1 cell");
+                const auto cc = mortonCoord<Dim>(ch.index, ch.level); long oct = 0; for(long d = 0; d < Dim; ++d) oct = oct * 2 + (cc[d] & 1);
+                C.arg(oct == pos[i], "top-tree M2M: position code does not decode to the level-1 cell's true octant");
+                for(long j = 0; j < i; ++j) C.arg(&low[j].get() != &low[i].get(), "top-tree M2M: the same child handed twice");
+                srcs.push_back(ch.index);
+            } else srcs.push_back(-1);
             codes.push_back(pos[i]);
             C.tch(&low[i].get(), false); C.tch(&up, true);
             if(levelOk(lvl) && pos[i] >= 0 && pos[i] < (1L << Dim)){ long t[Dim]; tchild(lvl, pos[i], t); up.addShifted(low[i].get(), t, 1); }
@@ -244,7 +252,14 @@ public:
                 C.arg(oct == pos[i], "L2L: position code does not decode to the child's true octant");
                 for(long j = 0; j < i; ++j) C.arg(&low[j].get() != &low[i].get(), "L2L: the same child handed twice");
                 srcs.push_back(ch.index);
-            } else if(cit != C.loOf.end()){ srcs.push_back(cit->second.index); } else srcs.push_back(-1);
+            } else if(cit != C.loOf.end()){
+                const CellId ch = cit->second;
+                C.arg(ch.level == 1, "top-tree L2L: a real child that is not a level-1 cell");
+                const auto cc = mortonCoord<Dim>(ch.index, ch.level); long oct = 0; for(long d = 0; d < Dim; ++d) oct = oct * 2 + (cc[d] & 1);
+                C.arg(oct == pos[i], "top-tree L2L: position code does not decode to the level-1 cell's true octant");
+                for(long j = 0; j < i; ++j) C.arg(&low[j].get() != &low[i].get(), "top-tree L2L: the same child handed twice");
+                srcs.push_back(ch.index);
+            } else srcs.push_back(-1);
             codes.push_back(pos[i]);
             C.tch(&up, false); C.tch(&low[i].get(), true);
             if(levelOk(lvl) && codeOk){ long t[Dim]; tchild(lvl, pos[i], t); low[i].get().addShifted(up, t, -1); }
